@@ -367,6 +367,40 @@ pub fn run(ctx: &mut Ctx) {
         ctx.add("swept.alert.level_x_description", 512);
         ctx.shape(&("alert", idx / 4));
     });
+    // heartbeat message types through the defragmenter, the message split so that the completing fragment carries
+    // only 1 or 2 bytes (unpadded message), or the payload's last 2 bytes followed by a separate padding fragment
+    sweep8!(ctx, "heartbeat.type.via_defragmenter_tiny_last_fragment", |v, rng| {
+        let payload = rng.bytes(20);
+        let mut good = true;
+        let mut shown = vec![];
+        for (pad, cutsv) in [(0usize, vec![22usize]), (0, vec![21]), (0, vec![10, 22]), (16, vec![21, 23]), (16, vec![22, 23])] {
+            let mut msg = vec![v, 0, 20];
+            msg.extend_from_slice(&payload);
+            msg.extend(std::iter::repeat(0xAB).take(pad));
+            let mut p = TlsRecordsParser::default();
+            let mut prev = 0usize;
+            let mut last: Option<bool> = None;
+            let mut bounds = cutsv.clone();
+            bounds.push(msg.len());
+            for b in bounds {
+                let d = &msg[prev..b];
+                prev = b;
+                let r = p.parse_record(TlsRawRecord { hdr: TlsRecordHeader { record_type: TlsRecordType(0x18), version: TlsVersion(0x0303), len: d.len() as u16 }, data: d });
+                last = Some(matches!(&r, Ok((_, m)) if m.len() == 1 && matches!(&m[0], TlsMessage::Heartbeat(h) if h.heartbeat_type.0 == v && h.payload == &payload[..])));
+                let done = r.is_ok();
+                drop(r);
+                if done {
+                    break;
+                }
+            }
+            if last != Some(true) {
+                good = false;
+                shown = msg.clone();
+            }
+        }
+        (good, shown)
+    });
+
     // ClientHello / ServerHello versions through a TlsRecordsParser that has completed a defragmentation, then seen an
     // empty handshake record (which starts a new, empty defragmentation), then receives the hello whole
     sweep16!(ctx, "version.via_defragmenter_after_completed_defrag_and_empty_record", |v, rng| {
